@@ -266,10 +266,14 @@ def planner_dependency(chk):
     if "build_error" in res or "coq_error" in res:
         chk.violation(vflib.write_replay(chk.prop, "correspondence:m1-build", {"log": (res.get("build_error") or res.get("coq_error"))[-1500:]}), True)
         return
-    wanted = (3, 4, 8, 10) if chk.prop in ("C05", "C12", "C13") else (3, 4)
+    # C12 / C13 speak about every command reading the project: the loader's model validation (validate_schema, K-valid loader)
+    # and normalisation are part of what they quantify over
+    wanted = (1, 2, 3, 4, 8, 10) if chk.prop in ("C12", "C13") else (3, 4, 8, 10) if chk.prop == "C05" else (3, 4)
     rel = {i: [s for s in subs if s in wanted] for i, subs in res["mismatches"].items()}
     rel = {i: s for i, s in rel.items() if s}
     corr = chk.cov.setdefault("correspondences", {})
+    if isinstance(corr, dict) and 2 in wanted:
+        corr["K-valid(m1, loader: validate_schema of the models) + K-norm"] = {"cases": len(res["rows"]), "mismatches": sum(1 for s in rel.values() if 1 in s or 2 in s)}
     if isinstance(corr, dict) and 8 in wanted:
         corr["K-valid(m1, validate_migration_plan filled+unfilled)"] = {"cases": len(res["rows"]), "mismatches": sum(1 for s in rel.values() if 8 in s or 10 in s)}
     if isinstance(corr, dict):
